@@ -79,6 +79,13 @@ def key_sort(self, key):
     if key in ('vec.len', 'vec.epoch', 'set.size', 'flist.len'): return I
     if key in CONTAINER_KEYS: return CONTAINER_KEYS[key]
     if key in self.base_arrays: return self.base_arrays[key].sort().range()
+    if key.startswith('vec.data.'):
+        # element store of a value class: 'vec.data.<class>.<leaf path>'
+        rest = key[len('vec.data.'):].split('.')
+        t = TY.parse(rest[0])
+        for (path, lt) in self.leaves(t):
+            if list(path) == rest[1:]: return z3.ArraySort(I, self.sort_of(lt))
+        raise Unsupported('key_sort: %s is not an element leaf' % key)
     parts = key.split('.')
     # class names may contain dots? no. find the longest class prefix
     cls = parts[0]; rest = parts[1:]
@@ -208,6 +215,19 @@ class Contract:
         if self.frame is None and self.assigns is None:
             raise Unsupported('contract %s is used at a call site but declares neither a frame nor an assigns clause' % self.name)
         fr_spec = self.frame(C) if self.frame else ([(k, None) for k in (self.assigns or [])])
+        # 'cls.*' stands for every scalar leaf of class cls; 'vec.*' for the container arrays
+        exp_ = []
+        for item_ in fr_spec:
+            k_ = item_[0]
+            if k_ != '*' and k_.endswith('.*'):
+                if k_ == 'vec.*':
+                    for kk in ('vec.len', 'vec.epoch', 'vec.data.int', 'vec.data.real', 'vec.data.bool'): exp_.append((kk,) + tuple(item_[1:]))
+                else:
+                    lv_, _ = eng.object_leaf_keys(TY.parse(k_[:-2]))
+                    for (kk, _lt) in lv_: exp_.append((kk,) + tuple(item_[1:]))
+            else:
+                exp_.append(item_)
+        fr_spec = exp_
         for item_ in fr_spec:
             key, refs = item_[0], item_[1]
             if key == '*':
@@ -222,11 +242,8 @@ class Contract:
                     for r_ in rs_: arr_ = z3.Store(arr_, r_, z3.Select(old_, r_))
                     st.heap[k_] = arr_
                 continue
-            srt = eng.key_sort(key) if not key.startswith('vec.data.') else None
-            if key.startswith('vec.data.'):
-                arr = eng.harr(st, key, None)
-            else:
-                arr = eng.harr(st, key, z3.ArraySort(I, srt))
+            srt = eng.key_sort(key)
+            arr = eng.harr(st, key, z3.ArraySort(I, srt))
             if refs is None:
                 st.heap[key] = eng.fresh(key + '!c', arr.sort())
             else:
@@ -835,7 +852,7 @@ def check_function(eng, contract, result):
             if contract.assigns is not None:
                 for key, arr in s.heap.items():
                     if key in contract.assigns: continue
-                    if key.startswith('vec.') and 'vec.*' in contract.assigns: continue
+                    if any(a_.endswith('.*') and key.startswith(a_[:-1]) for a_ in contract.assigns): continue
                     h = pre_state.heap.get(key)
                     if h is None: h = eng.base_arrays.get(key)
                     if h is None or h is arr or h.eq(arr): continue
